@@ -53,7 +53,7 @@ def part_pass_order(ctx):
              "expected": "behaviour identical to the default configuration (C02), or a user-facing diagnostic",
              "coq": "C02/PropsC02.v: pass_pipeline_simplify_cfg_refuted"},
             key="C02:disable_simplify_cfg-panics")
-    b = ctx.coq_build(["C02/PassOrder.v", "C02/PassOrderProofs.v", "C02/GenPassOrder.v", "C02/PropsC02.v"])
+    b = ctx.coq_build_cached(["C02/PassOrder.v", "C02/PassOrderProofs.v", "C02/GenPassOrder.v", "C02/PropsC02.v"])
     model_ok = (COQ / "C02" / "GenPassOrder.vo").exists() and (b["ok"] or "PropsC02" in b.get("file", ""))
     n = 0
     found = False
@@ -152,9 +152,9 @@ def canon_storage(prog, mfin, sto):
 
 def part_generated(ctx, cfgs):
     t0 = time.time()
-    n = 30 if ctx.tier == "quick" else 100
-    items, stats = D.generate(ctx, "c02gen", n, ncalls=6)
-    obs = D.observe_all(items, cfgs, procs=3)
+    n = 12 if ctx.tier == "quick" else 100
+    items, stats = D.generate(ctx, "c02gen", n, ncalls=6 if ctx.tier == "thorough" else 4)
+    obs = D.observe_all(items, cfgs, procs=4)
     n_cmp = 0
     reported = 0
     gen_keys = set()
@@ -315,7 +315,7 @@ def part_matrix(ctx, cfgs):
         p, unordered, labels = build_group(mk, accepted[k:k + 10])
         items.append({"prog": p, "calls": [H.Call(i, []) for i in range(len(p.exts))], "labels": labels,
                       "unordered": {i for i, u in unordered.items() if u}, "group": accepted[k:k + 10]})
-    obs = D.observe_all(items, cfgs, procs=3)
+    obs = D.observe_all(items, cfgs, procs=4)
     n_cmp = 0
     seen = {}
     for i, it in enumerate(items):
@@ -572,7 +572,7 @@ def part_corpus(ctx, cfgs):
     global _JOBS
     t0 = time.time()
     jobs = load_corpus(ctx)
-    ncalls = 10 if ctx.tier == "quick" else 40
+    ncalls = 8 if ctx.tier == "quick" else 40
     usable = []
     skipped = {}
     for job in jobs:
@@ -595,8 +595,15 @@ def part_corpus(ctx, cfgs):
     cfgs = list(cfgs) + [Config(True, "gas", "cancun", flags=[f]) for f in USABLE_FLAGS]
     _JOBS = {"jobs": usable, "cfgs": cfgs}
     # quick tier: the (large) example contracts run under four most-different configurations only, the corpus under seven
-    quick_skip_corpus = {"legacy-codesize-london", "legacy-gas-paris-debug", "venom-none-shanghai"} if ctx.tier == "quick" else set()
-    quick_examples = {"legacy-gas-prague", "venom-gas-prague", "legacy-none-cancun", "venom-O3-prague"}
+    # quick tier: every corpus contract runs under the two default pipelines plus three rotating configurations; the example
+    # contracts under the two default pipelines plus one rotating configuration (thorough: everything)
+    base_names = ["legacy-gas-prague", "venom-gas-prague"]
+    rot = [c.name for c in cfgs[:n_base] if c.name not in base_names]
+
+    def quick_set(job, extra):
+        import zlib
+        h = zlib.crc32((job["name"] + str(ctx.seed)).encode())
+        return set(base_names) | {rot[(h + k * 3) % len(rot)] for k in range(extra)}
 
     def wanted(job, j, cfg):
         if job["min_evm"] == "cancun" and cfg.evm in R.PRE_CANCUN:
@@ -605,12 +612,12 @@ def part_corpus(ctx, cfgs):
             return bool(job.get("regress"))
         if job.get("regress"):
             return True
-        if ctx.tier == "quick" and job["name"].startswith("examples/"):
-            return cfg.name in quick_examples
-        return cfg.name not in quick_skip_corpus
+        if ctx.tier == "quick":
+            return cfg.name in quick_set(job, 1 if job["name"].startswith("examples/") else 3)
+        return True
     work = [(k, j) for k, job in enumerate(usable) for j, cfg in enumerate(cfgs) if wanted(job, j, cfg)]
     out = {}
-    with mp.get_context("fork").Pool(3) as pool:
+    with mp.get_context("fork").Pool(4) as pool:
         for k, j, st, o in pool.imap_unordered(_corpus_one, work, chunksize=2):
             out[(k, j)] = (st, o)
     n_cmp = 0
